@@ -13,6 +13,14 @@ n       number of consecutive selections (1..64)
 v       request variant (used by the harness only to build the HTTP request)
 rand    `-` or `<seed>:<d,d,…>` raw Int63 draws of math/rand after Seed(seed)
 
+  prx <dyn|sta> <policy> <m> <ids> <script> <rand>
+        the proxy loop around Select: one reverse_proxy handler with the addresses <ids> (`-` or ids joined
+        by `,`, pairwise different) as static upstreams (`sta`) or handed out afresh for every request by a
+        dynamic upstream source (`dyn`), unhealthy_request_count <m> (0 = none), policy one of first,
+        rr:<c>, lc, rnd, rc:<k>; script = events joined by `,`: `h` a request arrives and is held in flight
+        at the backend, `q` a request arrives and completes, `f<k>` the k-th held request (0-based) completes.
+        answer `<o>,<o>,… c=<counter|-> n=<in-flight per address|->`, o = address index | `503` | `ok` | `-`
+
 answer  `<r>,<r>,… c=<counter|-> a=<availability bits|->`, r = `nil` | `<i>` | `<i>+ck<id>` | `panic:idx` | `panic:div` | `panic:nil`;
         `err:provision` if the policy is rejected; `starved` if the draws run out; `bad-op` if malformed.
 -/
@@ -148,7 +156,55 @@ def answer (p : Policy) (pool : Pool) (n : Nat) (ds : List Nat) : String :=
     else ",".intercalate ((run n p pool ds).1.map showRes) ++ " c=" ++ counterOf (run n p pool ds).2
       ++ " a=" ++ availBits pool
 
+/-- `h` | `q` | `f<k>` -/
+def parseEv (s : String) : Option Ev :=
+  match s.toList with
+  | ['h'] => some .hold
+  | ['q'] => some .quick
+  | 'f' :: ks => (num 64 (String.ofList ks)).map .fin
+  | _ => none
+
+/-- every `f<k>` refers to a `hold` that has happened -/
+def scriptOK : List Ev → Nat → Bool
+  | [], _ => true
+  | .hold :: es, n => scriptOK es (n + 1)
+  | .quick :: es, n => scriptOK es n
+  | .fin k :: es, n => decide (k < n) && scriptOK es n
+
+/-- the policies the proxy-loop cases use (no hash, cookie or weighted policies) -/
+def proxyPolicy : Policy → Bool
+  | .first => true
+  | .rr _ => true
+  | .leastConn => true
+  | .random => true
+  | .randomChoose _ => true
+  | _ => false
+
+def showEvOut : EvOut → String
+  | .sent i => toString i
+  | .refused => "503"
+  | .crashed => "panic"
+  | .starved => "starved"
+  | .done => "ok"
+  | .idle => "-"
+
+def proxyAnswer (p : Policy) (m : Nat) (ids : List Nat) (evs : List Ev) (ds : List Nat) : String :=
+  match provision p with
+  | none => "err:provision"
+  | some p =>
+    if (prun m ids (pinit p ids ds) evs).1.any (· == .starved) then "starved"
+    else ",".intercalate ((prun m ids (pinit p ids ds) evs).1.map showEvOut)
+      ++ " c=" ++ counterOf (prun m ids (pinit p ids ds) evs).2.pol
+      ++ " n=" ++ (if ids.isEmpty then "-" else ",".intercalate ((prun m ids (pinit p ids ds) evs).2.loads.map toString))
+
 def handle : List String → String
+  | ["prx", mode, pol, m, ids, script, rnd] =>
+    match parseLeaf pol, num 1000 m, parseNums small ids, (script.splitOn ",").mapM parseEv, parseRand rnd with
+    | some p, some m, some ids, some evs, some ds =>
+      if (mode == "dyn" || mode == "sta") && proxyPolicy p && ids.length ≤ 16 && decide ids.Nodup
+          && evs.length ≤ 32 && scriptOK evs 0 then proxyAnswer p m ids evs ds
+      else "bad-op"
+    | _, _, _, _, _ => "bad-op"
   | ["sel", pol, pool, n, v, rnd] =>
     match parsePolicy pol, parsePool pool, num 64 n, num small v, parseRand rnd with
     | some p, some pl, some n, some _, some ds => if n = 0 then "bad-op" else answer p pl n ds
